@@ -13,6 +13,8 @@ import AgVerif.Proof.Intervals
 import AgVerif.Props.C19
 import Mathlib.Data.List.Forall2
 import Mathlib.Data.List.Nodup
+import Mathlib.Data.List.ProdSigma
+import Mathlib.Data.List.Perm.Subperm
 namespace AgVerif.DerivedSeq
 open List AgVerif.Intervals
 
@@ -1199,5 +1201,83 @@ theorem derivedSequence_terminates (L : Level) (hL : niceb L = true) :
   refine ⟨res, h, ?_⟩
   have := derive_length _ _ _ _ h
   simpa [fuel] using this
+
+/-- the recorded edges are pairwise different: the test `if e2 not in lsucs` of `Graph.add_edge`, which the
+    model leaves out, never skips an edge of an interval graph -/
+theorem records_nodup (L : Level) (o : List (Nat × List Nat)) (r : List (Nat × Nat))
+    (h : intervalsG L = some (o, r)) : r.Nodup := by
+  obtain ⟨P, g, _⟩ := loopG_inv L.preds L.order L.nodes L.entry _ _ _ _ _ _ _ _ h (GI.init _ _ _ _)
+  exact g.recN
+
+/-- shape of the result: the loop stops at the first level with a single interval -/
+theorem derive_shape : ∀ (f : Nat) (L : Level) (acc res : List Step), derive f L acc = some res →
+    ∃ steps last, res = acc ++ steps ++ [last] ∧ last.heads.length = 1 ∧ ∀ s ∈ steps, s.heads.length ≠ 1 := by
+  intro f
+  induction f with
+  | zero => intro L acc res h; simp [derive] at h
+  | succ f ih =>
+    intro L acc res h
+    simp only [derive] at h
+    split at h
+    · simp at h
+    · next out recs hI =>
+      split at h
+      · simp at h
+      · next L' rpo hN =>
+        split at h
+        · next hl =>
+          simp at h
+          subst h
+          exact ⟨[], ⟨out, recs, rpo, L'.entry⟩, by simp, by simpa using hl, by simp⟩
+        · next hl =>
+          obtain ⟨steps, last, e, h1, h2⟩ := ih _ _ _ h
+          refine ⟨⟨out, recs, rpo, L'.entry⟩ :: steps, last, by rw [e]; simp, h1, ?_⟩
+          intro s hs
+          rcases mem_cons.mp hs with e' | e'
+          · subst e'; simpa using hl
+          · exact h2 s e'
+
+/-! ### termination without well-formedness of the first level -/
+
+/-- at most `(|nodes| + 1) · |nodes|` edges are recorded, whatever the level looks like -/
+theorem recs_length_le (L : Level) (o : List (Nat × List Nat)) (r : List (Nat × Nat))
+    (h : intervalsG L = some (o, r)) : r.length ≤ (L.nodes.length + 1) * L.nodes.length := by
+  obtain ⟨P, g, _⟩ := loopG_inv L.preds L.order L.nodes L.entry _ _ _ _ _ _ _ _ h (GI.init _ _ _ _)
+  have hP : P.length ≤ L.nodes.length + 1 := by
+    have hsub : P ⊆ L.entry :: L.nodes := by
+      intro n hn
+      rcases g.first n (Or.inr hn) with e | ⟨a, ha, _, _⟩
+      · exact e ▸ mem_cons_self
+      · exact mem_cons_of_mem _ (g.rec1 _ ha).2.1
+    have := (subperm_of_subset g.pN hsub).length_le
+    simpa using this
+  have hr : r ⊆ P ×ˢ L.nodes := by
+    intro x hx
+    obtain ⟨a, b, _, _⟩ := g.rec1 x hx
+    exact mem_product.mpr ⟨a, b⟩
+  have := (subperm_of_subset g.recN hr).length_le
+  rw [length_product] at this
+  exact Nat.le_trans this (Nat.mul_le_mul_right _ hP)
+
+/-- fuel that is enough for every level whose `rpo[0]` is the entry -/
+def generalFuel (L : Level) : Nat := (L.nodes.length + 1) * L.nodes.length + 2
+
+/-- `derived_sequence` terminates on EVERY graph whose `rpo[0]` is the entry (unreachable nodes, nodes
+    without predecessors, duplicates in `graph.nodes` allowed): the first interval graph is well-formed and
+    has at most `(|nodes| + 1) · |nodes|` edges -/
+theorem derive_total_general (L : Level) (h1 : L.entry ∉ L.order) (acc : List Step) :
+    ∃ res, derive (generalFuel L) L acc = some res ∧ res.length ≤ acc.length + generalFuel L := by
+  obtain ⟨o, r, hI⟩ := intervalsG_total L
+  obtain ⟨L', rpo, hN, hnice, hps⟩ := nextLevel_nice L h1 o r hI
+  have hle := recs_length_le L o r hI
+  have key : ∃ res, derive (generalFuel L) L acc = some res := by
+    unfold generalFuel
+    simp only [derive, hI, hN]
+    by_cases hlen : (o.length == 1) = true
+    · rw [if_pos hlen]; exact ⟨_, rfl⟩
+    · rw [if_neg hlen]
+      exact derive_total ((L.nodes.length + 1) * L.nodes.length + 1) L' _ hnice (by rw [hps]; omega)
+  obtain ⟨res, hres⟩ := key
+  exact ⟨res, hres, derive_length _ _ _ _ hres⟩
 
 end AgVerif.DerivedSeq
